@@ -6,21 +6,29 @@ open Spec
 
 variable {V : Type}
 
+theorem modeExcludes_eq (o : Opts V) (f : PField V) (m : Nat) (hm : o.mode = some m) :
+    modeExcludes f.mode m = modeOff o f := by
+  unfold modeExcludes modeOff; rw [hm]; cases f.mode <;> rfl
+
+theorem modeOff_of_none (o : Opts V) (f : PField V) (hm : o.mode = none) : modeOff o f = false := by
+  unfold modeOff; rw [hm]
+
 theorem flagHolds_eq (W : World V) (o : Opts V) (f : PField V) (fl : Flag) (v : V) :
     flagHolds {} W o.mode f.mode fl v = flagOn W o f fl v := by
   unfold flagHolds flagOn flagAt
-  cases fl with
-  | no => cases o.mode <;> cases f.mode <;> simp
-  | yes => cases o.mode <;> cases f.mode <;> simp
-  | modes ms =>
-    cases o.mode with
-    | none => cases f.mode <;> simp
-    | some m =>
-      cases f.mode with
-      | none => by_cases h : ms.contains m = true <;> simp [h]
-      | some fm => by_cases h : ms.contains m = true <;> simp [h]
-  | pred k =>
-    cases hp : W.pred k v <;> cases o.mode <;> cases f.mode <;> simp [hp]
+  cases hm : o.mode with
+  | none =>
+    rw [modeOff_of_none o f hm]
+    cases fl with
+    | pred k => cases hp : W.pred k v <;> simp [hp]
+    | _ => simp
+  | some m =>
+    rw [← modeExcludes_eq o f m hm]
+    cases fl with
+    | no => simp
+    | yes => simp
+    | modes ms => by_cases h : ms.contains m = true <;> simp [h]
+    | pred k => cases hp : W.pred k v <;> simp [hp]
 
 theorem isNoInput_eq (W : World V) (o : Opts V) (f : PField V) (v : V) :
     isNoInput {} W o f v = noInput W o f v := flagHolds_eq W o f f.noInput v
@@ -30,17 +38,17 @@ theorem isNoOutput_eq (W : World V) (o : Opts V) (f : PField V) (v : V) :
 
 theorem alwaysNoInput_eq (o : Opts V) (f : PField V) : alwaysNoInput {} o f = neverInput o f := by
   unfold alwaysNoInput neverInput
-  cases f.noInput with
-  | yes => simp
-  | no => cases o.mode <;> cases f.mode <;> simp
-  | pred k => cases o.mode <;> cases f.mode <;> simp
-  | modes ms =>
-    cases o.mode with
-    | none => cases f.mode <;> simp
-    | some m =>
-      cases f.mode with
-      | none => by_cases h : ms.contains m = true <;> simp [h]
-      | some fm => by_cases h : ms.contains m = true <;> simp [h]
+  cases hm : o.mode with
+  | none =>
+    rw [modeOff_of_none o f hm]
+    cases f.noInput <;> simp
+  | some m =>
+    rw [← modeExcludes_eq o f m hm]
+    cases f.noInput with
+    | yes => simp
+    | no => simp
+    | pred k => simp
+    | modes ms => by_cases h : ms.contains m = true <;> simp [h]
 
 theorem isRequired_eq (o : Opts V) (f : PField V) : isRequired {} o f = required o f := by
   unfold isRequired required
@@ -48,12 +56,12 @@ theorem isRequired_eq (o : Opts V) (f : PField V) : isRequired {} o f = required
   cases o.ignoreRequired <;> cases neverInput o f <;> cases f.required <;> simp
   all_goals (cases o.mode <;> simp)
 
-theorem getDefault_false_eq (o : Opts V) (f : PField V) : getDefault o f false = filled o f := by
+theorem getDefault_false_eq (W : World V) (o : Opts V) (f : PField V) : getDefault W o f false = filled W o f := by
   unfold getDefault filled
   cases o.noDefault <;> cases f.deferDefault <;> cases o.deferDefault <;> simp
   all_goals (cases o.forceDefault <;> rfl)
 
-theorem getDefault_true_eq (o : Opts V) (f : PField V) : getDefault o f true = deferred o f := by
+theorem getDefault_true_eq (W : World V) (o : Opts V) (f : PField V) : getDefault W o f true = deferred W o f := by
   unfold getDefault deferred
   cases o.noDefault <;> cases f.deferDefault <;> cases o.deferDefault <;> simp
   all_goals (cases o.forceDefault <;> rfl)
@@ -67,11 +75,11 @@ def applyOut (f : PField V) (fo : FieldOut V) (st : St V) : St V :=
 
 theorem absent_eq [DecidableEq V] (W : World V) (o : Opts V) (f : PField V) (data : List (Key × V)) (st : St V)
     (hc : candidates W f data = []) :
-    absent {} o f st = applyOut f (fieldContract W o f data) st := by
+    absent {} W o f st = applyOut f (fieldContract W o f data) st := by
   unfold absent fieldContract applyOut
   rw [hc, isRequired_eq, getDefault_false_eq]
   cases hr : required o f
-  · cases hf : filled o f <;> simp
+  · cases hf : filled W o f <;> simp
   · simp
 
 /-- the field's chosen input was dropped by the 'exclude' policy (and the field is not required) -/
@@ -107,14 +115,14 @@ theorem provide_eq [DecidableEq V] (W : World V) (o : Opts V) (f : PField V) (da
     | none =>
       cases hoe : f.onError.getD o.invalidValues
       · simp [hn, hfp, hoe, hcf]
-      · cases hr : required o f <;> cases hf : filled o f <;> simp [hn, hfp, hoe, hr, hf, hcf]
+      · cases hr : required o f <;> cases hf : filled W o f <;> simp [hn, hfp, hoe, hr, hf, hcf]
       · simp [hn, hfp, hoe, hcf]
-  · cases hf : filled o f <;> simp [hn, hf]
+  · cases hf : filled W o f <;> simp [hn, hf]
 
 /-- field-first completes a dropped value at once -/
 theorem ffExcluded_eq [DecidableEq V] (W : World V) (o : Opts V) (f : PField V) (data : List (Key × V)) (st : St V)
     (h : isExcluded W o f data = true) :
-    ffExcluded o f (applyOut f (outA W o data f) st) = applyOut f (fieldContract W o f data) st := by
+    ffExcluded W o f (applyOut f (outA W o data f) st) = applyOut f (fieldContract W o f data) st := by
   unfold ffExcluded outA
   rw [h, getDefault_false_eq]
   unfold isExcluded at h
@@ -125,12 +133,12 @@ theorem ffExcluded_eq [DecidableEq V] (W : World V) (o : Opts V) (f : PField V) 
     rw [hc] at h
     simp only [Bool.and_eq_true, Bool.not_eq_true', Option.isNone_iff_eq_none, decide_eq_true_eq] at h
     obtain ⟨⟨⟨hn, hfp⟩, hoe⟩, hr⟩ := h
-    cases hf : filled o f <;> simp [hn, hfp, hoe, hr, hf]
+    cases hf : filled W o f <;> simp [hn, hfp, hoe, hr, hf]
 
 /-- data-first completes it in the fill loop, with the statements for a field without input -/
 theorem absent_excluded_eq [DecidableEq V] (W : World V) (o : Opts V) (f : PField V) (data : List (Key × V))
     (st : St V) (h : isExcluded W o f data = true) :
-    absent {} o f st = applyOut f (outB W o data f) st := by
+    absent {} W o f st = applyOut f (outB W o data f) st := by
   unfold absent outB
   rw [h, isRequired_eq, getDefault_false_eq]
   unfold isExcluded at h
@@ -141,7 +149,7 @@ theorem absent_excluded_eq [DecidableEq V] (W : World V) (o : Opts V) (f : PFiel
     rw [hc] at h
     simp only [Bool.and_eq_true, Bool.not_eq_true', Option.isNone_iff_eq_none, decide_eq_true_eq] at h
     obtain ⟨⟨⟨hn, hfp⟩, hoe⟩, hr⟩ := h
-    cases hf : filled o f <;> simp [hn, hfp, hoe, hr, hf]
+    cases hf : filled W o f <;> simp [hn, hfp, hoe, hr, hf]
 
 theorem isExcluded_of_nil [DecidableEq V] (W : World V) (o : Opts V) (f : PField V) (data : List (Key × V))
     (hc : candidates W f data = []) : isExcluded W o f data = false := by
